@@ -614,6 +614,9 @@ func findDropPack(c *Case, ci, si, pi int, kind string) int {
 }
 
 func genDrops(seed int64, idx int) *Case {
+	if idx%12 == 11 {
+		return genGreedy(seed, idx)
+	}
 	rnd := newRand(seed, "dropplan", idx)
 	o := genOpts{profile: "drops", maxP: 4, maxColls: 3, drops: true, late: false, deviants: idx%4 == 0, junk: false, skewMs: 20, packsMin: 6, packsMax: 14}
 	o.raceAddPart = idx%2 == 1
@@ -737,5 +740,67 @@ func genDrops(seed int64, idx int) *Case {
 		}
 		c.Note += " + dropped-while-down objects"
 	}
+	return c
+}
+
+// genGreedy (drops profile, every 12th case): objects dropped upstream while CDC was down are registered on a handler
+// that is busy with FORWARDED packs of another collection. Two source and two downstream channels with the base
+// pairing s0<->d0, s1<->d1 (anchor collection a); collection d (s0 -> d1) is read by the handler of s0 and forwarded
+// to the handler of s1; collections x1..x3 (s1 -> d1) were dropped while CDC was down and are registered one by one
+// while d's packs flow. Their synthetic drop messages wait in the queue of the handler of s1 next to the forwarded
+// packs: each of them must still be turned into exactly one drop request.
+func genGreedy(seed int64, idx int) *Case {
+	rnd := newRand(seed, "greedy", idx)
+	c := &Case{Idx: idx, Profile: "drops", Scripts: map[string][]PPack{}, TTInterval: 1, DelayPermil: 1000}
+	c.SrcPs = []string{srcPName(0), srcPName(1)}
+	c.DstPs = []string{dstPName(0), dstPName(1)}
+	c.SrcChanNum, c.DstChanNum = 2, 2
+	seek := hts(1_699_999_999_000, 0)
+	mk := func(name string, src, dst int64, shards [][2]int, dropped bool) CollSpec {
+		col := CollSpec{SrcID: src, DstID: dst, Name: name, DB: "default", PreDownstream: true, CreateTs: hts(1_699_000_000_000, 0), SeekTs: seek, DroppedAtStart: dropped}
+		for k, sd := range shards {
+			sp, dp := srcPName(sd[0]), dstPName(sd[1])
+			col.Shards = append(col.Shards, ShardSpec{SrcP: sp, SrcV: vName(sp, src, k), DstP: dp, DstV: vName(dp, dst, k)})
+		}
+		col.Parts = []PartSpec{{Name: "_default", SrcID: src*10 + 1, DstID: dst*10 + 1, PreDownstream: true, CreateTs: col.CreateTs}}
+		return col
+	}
+	base := int64(3000 + rnd.Intn(50)*10)
+	c.Colls = append(c.Colls, mk("coll_a", base, base+5000, [][2]int{{0, 0}, {1, 1}}, false))
+	c.Colls = append(c.Colls, mk("coll_d", base+1, base+5001, [][2]int{{0, 1}}, false))
+	nx := 2 + rnd.Intn(2)
+	for i := 0; i < nx; i++ {
+		c.Colls = append(c.Colls, mk(fmt.Sprintf("coll_x%d", i), base+2+int64(i), base+5002+int64(i), [][2]int{{1, 1}}, true))
+	}
+	uid := int64(idx%1000)*100000 + 1
+	nPacks := 40 + rnd.Intn(20)
+	t := uint64(1_700_000_000_000)
+	for k := 0; k < nPacks; k++ {
+		b, e := hts(t, 0), hts(t+8, 0)
+		p0 := PPack{BeginTs: b, EndTs: e}
+		p1 := PPack{BeginTs: b, EndTs: e}
+		if k > 0 {
+			// every pack of s0 carries rows of d (forwarded); a carries rows now and then
+			p0.Msgs = append(p0.Msgs, MsgSpec{UID: uid, Kind: kInsert, Coll: 1, Shard: 0, Part: 0, TS: hts(t+2, 1), Rows: 1 + rnd.Intn(2)})
+			uid++
+			if k%5 == 0 {
+				p0.Msgs = append(p0.Msgs, MsgSpec{UID: uid, Kind: kInsert, Coll: 0, Shard: 0, Part: 0, TS: hts(t+3, 1), Rows: 1})
+				uid++
+			}
+			if k%4 == 0 {
+				p1.Msgs = append(p1.Msgs, MsgSpec{UID: uid, Kind: kInsert, Coll: 0, Shard: 1, Part: 0, TS: hts(t+3, 2), Rows: 1})
+				uid++
+			}
+		}
+		c.Scripts[c.SrcPs[0]] = append(c.Scripts[c.SrcPs[0]], p0)
+		c.Scripts[c.SrcPs[1]] = append(c.Scripts[c.SrcPs[1]], p1)
+		t += 10
+	}
+	c.Steps = append(c.Steps, Step{Kind: sStartColl, Coll: 0}, Step{Kind: sStartColl, Coll: 1}, Step{Kind: sAddPart, Coll: 0, Part: 0}, Step{Kind: sAddPart, Coll: 1, Part: 0})
+	for i := 0; i < nx; i++ {
+		at := 6 + i*(nPacks-12)/nx + rnd.Intn(4)
+		c.Steps = append(c.Steps, Step{Kind: sStartColl, Coll: 2 + i, Async: true, After: []Dep{packDep(c.SrcPs[0], at, 1)}})
+	}
+	c.Note = fmt.Sprintf("%d objects dropped while down are registered on a handler busy with forwarded packs + dropped-while-down objects", nx)
 	return c
 }
